@@ -300,3 +300,71 @@ class LineYield:
         self.mon.set_events(self.tool, 0)
         self.mon.register_callback(self.tool, self.mon.events.LINE, None)
         self.mon.free_tool_id(self.tool)
+
+
+class LineGate:
+    """Deterministic interleaving between two adjacent statements (sys.monitoring LINE events, no source change): thread A is
+    held when it reaches the statement whose source text contains `hold_text` (inside function `hold_func`) until thread B reaches
+    the statement containing `at_text` (inside `at_func`); B is then held until `until()` is true (or a timeout). Lines are
+    located by their text, not their number. Both waits time out (the gate is then reported as missed, never as a hang)."""
+
+    def __init__(self, hold_func, hold_text, at_func, at_text, until, snapshot=None, timeout=0.8):
+        import inspect
+
+        import rex.asynchronous as ra
+
+        self.mon = sys.monitoring
+        self.tool = self.mon.OPTIMIZER_ID
+        self.target = ra.__file__
+        src = inspect.getsource(ra).split("\n")
+
+        def find(func, text):
+            inside = False
+            for i, l in enumerate(src, 1):
+                if l.lstrip().startswith("def "):
+                    inside = l.lstrip().startswith(f"def {func}(")
+                if inside and text in l and not l.lstrip().startswith("#"):
+                    return i
+            return None
+
+        self.l_hold, self.l_at = find(hold_func, hold_text), find(at_func, at_text)
+        self.until, self.snapshot, self.timeout = until, snapshot, timeout  # timeout stays below the quiescence detector's window
+        self.armed = False
+        self.a_here, self.b_here = threading.Event(), threading.Event()
+        self.held_a = self.held_b = 0
+        self.b_satisfied = None
+
+    def arm(self):
+        self.a_here.clear()
+        self.b_here.clear()
+        self.armed = True
+
+    def _on_line(self, code, lineno):
+        if code.co_filename != self.target:
+            return self.mon.DISABLE
+        if not self.armed:
+            return
+        if lineno == self.l_hold and not self.a_here.is_set():
+            self.a_here.set()
+            self.held_a += 1
+            self.b_here.wait(self.timeout)
+        elif lineno == self.l_at and self.a_here.is_set() and not self.b_here.is_set():
+            self.b_here.set()
+            self.held_b += 1
+            snap = self.snapshot() if self.snapshot else None
+            t0 = time.time()
+            while not self.until(snap) and time.time() - t0 < self.timeout:
+                time.sleep(0.002)
+            self.b_satisfied = bool(self.until(snap))
+            self.armed = False
+
+    def __enter__(self):
+        self.mon.use_tool_id(self.tool, "rexmon-linegate")
+        self.mon.register_callback(self.tool, self.mon.events.LINE, self._on_line)
+        self.mon.set_events(self.tool, self.mon.events.LINE)
+        return self
+
+    def __exit__(self, *a):
+        self.mon.set_events(self.tool, 0)
+        self.mon.register_callback(self.tool, self.mon.events.LINE, None)
+        self.mon.free_tool_id(self.tool)
